@@ -119,16 +119,16 @@ theorem tree_drain_cannot_get_stuck (cfg : Path → Cfg) (caps : Path → Nat) (
 
 
 open Firebolt.Exec in
-/-- **the drain terminates under every scheduler**: once the source has finished, any continuation by steps of the tree's
-workers and completions has at most `Phi N d` steps (the work still ahead of the tree, a number computed from the state),
-and a continuation after which nothing can move has left every node terminal -/
+/-- **the drain terminates under every scheduler**: once the source has finished, any continuation without source actions
+— whatever steps of whatever workers and completions, in any order — has at most `Phi N d` steps (the work still ahead of
+the tree, a number computed from the state), and a continuation after which nothing can move has left every node terminal -/
 theorem tree_drain_terminates (cfg : Path → Cfg) (caps : Path → Nat) (disc : Path → Bool) (d : Nat)
     (pre cont : List (Path × Act)) (N N' : Net)
     (hpre : grun (ginit cfg caps disc) pre = some N) (hcont : grun N cont = some N')
     (hd : FiniteDepth cfg d) (hW : ∀ p, 0 < (cfg p).W) (hcap : ∀ p, 1 ≤ caps p)
-    (hsrc : (N.st []).inpClosed = true) (hs : TreeSched cfg cont) :
+    (hsrc : (N.st []).inpClosed = true) (hs : ∀ pa ∈ cont, nonEnv pa.2 = true) :
     cont.length ≤ Phi N d ∧
     ((∀ p a, nonEnv a = true → gstep N' p a = none) → ∀ p, inTree cfg p → Terminal (cfg p) (N'.st p)) :=
-  drain_terminates cfg caps disc d pre cont N N' hpre hcont hd hW hcap hsrc hs
+  drain_terminates_any cfg caps disc d pre cont N N' hpre hcont hd hW hcap hsrc hs
 
 end Firebolt.C03
